@@ -94,6 +94,52 @@ func (m *Model) FieldsParent(t *Type) (*Decl, bool) {
 	return nil, false
 }
 
+// instField is the type of a field of type ft in the (possibly generic)
+// struct type behind parent: type parameters P<i> are replaced by the
+// parent's type arguments.
+func (m *Model) instField(parent, ft *Type) *Type {
+	p := resolveAlias(m.S, parent)
+	for p != nil && (p.K == "ptr" || p.K == "named" && len(p.Args) == 0 && m.S.Decls[p.Decl].Form == "def") {
+		if p.K == "ptr" {
+			p = resolveAlias(m.S, p.Elem)
+		} else {
+			p = resolveAlias(m.S, m.S.Decls[p.Decl].Under)
+		}
+	}
+	if p == nil || p.K != "named" || len(p.Args) == 0 {
+		return ft
+	}
+	var sub func(t *Type) *Type
+	sub = func(t *Type) *Type {
+		if t == nil {
+			return nil
+		}
+		if t.K == "tparam" {
+			var i int
+			if _, err := fmt.Sscanf(t.Basic, "P%d", &i); err == nil && i < len(p.Args) {
+				return p.Args[i]
+			}
+			return t
+		}
+		c := *t
+		c.Elem = sub(t.Elem)
+		if len(t.Args) > 0 {
+			c.Args = nil
+			for _, a := range t.Args {
+				c.Args = append(c.Args, sub(a))
+			}
+		}
+		if len(t.Fields) > 0 {
+			c.Fields = nil
+			for _, f := range t.Fields {
+				c.Fields = append(c.Fields, LitField{Name: f.Name, T: sub(f.T)})
+			}
+		}
+		return &c
+	}
+	return sub(ft)
+}
+
 // fieldByName finds a field by exact name.
 func fieldByName(d *Decl, name string) *SField {
 	for i := range d.Fields {
@@ -297,11 +343,12 @@ func (m *Model) Sources(i int) []*Src {
 			if f == nil {
 				continue
 			}
-			s := mk("field", f.T)
+			ft := m.instField(it.Parent, f.T)
+			s := mk("field", ft)
 			s.FieldName = n
 			out = append(out, s)
 			if isPtr {
-				p := mk("field", Ptr(f.T))
+				p := mk("field", Ptr(ft))
 				p.FieldName = n
 				p.FieldPtr = true
 				out = append(out, p)
